@@ -536,11 +536,17 @@ def call_builtin(interp: Any, fv: BuiltinV, args: list[V], kwargs: dict[str, V],
     if name.startswith("einops."):
         yield einops_op(interp, name[7:], args, kwargs, st, node), st
         return
+    if name in ("typing.cast", "typing_extensions.cast") and len(args) == 2:
+        yield args[1], st
+        return
     if name.startswith("functools.") or name.startswith("itertools.") or name.startswith("numpy.") or name.startswith("math."):
         yield from lib_op(interp, name, args, kwargs, st, fr, node)
         return
     if name == "noop":
         yield NONE, st
+        return
+    if name.startswith("model."):
+        yield from model_op(interp, name[6:], fv.bound, args, kwargs, st, fr, node)
         return
     yield from py_builtin(interp, name, args, kwargs, st, fr, node)
 
@@ -1120,6 +1126,75 @@ def einops_op(interp: Any, op: str, args: list[V], kwargs: dict[str, V], st: Sta
 # ------------------------------------------------------------------------------- python level
 
 
+def _shape_of_node(interp: Any, v: V, st: State, fr: Any) -> V | None:
+    """shape of a symbolic parameter node / Parameter placeholder"""
+    from .shapes import new_param
+    if isinstance(v, ParamV):
+        return interp.param_shape(v.pid, st)
+    if isinstance(v, ObjV):
+        outs = list(interp.getattr(v, "shape", st, fr))
+        if len(outs) == 1:
+            return outs[0][0]
+    return None
+
+
+def model_op(interp: Any, name: str, bound: V | None, args: list[V], kwargs: dict[str, V], st: State, fr: Any, node: ast.AST) -> Iterator[tuple[V, State]]:
+    """cirkit.symbolic.parameters.Parameter / circuit.CircuitBlock, modelled: a Parameter is its
+    output shape; composing checks what Parameter.__init__ checks (node.in_shapes == operand shapes)."""
+    from .shapes import new_param
+    cls, _, meth = name.partition(".")
+    if cls == "Parameter":
+        if meth == "ref":
+            yield bound if bound is not None else interp.unk("ref"), st
+            return
+        if meth == "from_input" and len(args) == 1:
+            shp = _shape_of_node(interp, args[0], st, fr)
+            if isinstance(shp, TupleV):
+                yield new_param(st, "from_input", TupleV(shp.items), Dim.const(1)), st
+            else:
+                yield interp.unk("Parameter.from_input of unknown shape"), st
+            return
+        if meth in ("from_unary", "from_binary", "from_nary", "from_sequence") and args:
+            if meth == "from_sequence":
+                ops, operands = list(args[1:]), [args[0]]
+            else:
+                ops, operands = [args[0]], list(args[1:])
+            cur = [_shape_of_node(interp, o, st, fr) for o in operands]
+            for op in ops:
+                if not isinstance(op, ObjV):
+                    yield interp.unk("Parameter composition with an unknown node"), st
+                    return
+                ins = st.heap.get(op.oid, {}).get("_in_shapes")
+                if not isinstance(ins, TupleV) or any(not isinstance(c, TupleV) for c in cur):
+                    yield interp.unk("Parameter composition: shapes unknown"), st
+                    return
+                want = TupleV(tuple(TupleV(c.items) for c in cur))  # type: ignore[union-attr]
+                eq = interp.equal(TupleV(tuple(TupleV(x.items) if isinstance(x, TupleV) else x for x in ins.items)), want, st)
+                ok_ = eq.val is True or (eq.val is None and all(st.decide(l[1], "==") is True for l in eq.tlits if l[0] == "cmp"))
+                if not ok_:
+                    msg = f"{fr.fi.module.relpath}:{getattr(node, 'lineno', 0)} {fr.fi.qualname}: {op.cls.name} is built for input shapes {ins!r} but composed with parameters of shapes {want!r} (Parameter.__init__ raises, or -- when sizes coincide -- the wrong axes are combined)"
+                    if interp.strict:
+                        interp.strict_failures.append(msg)
+                        return
+                out = _shape_of_node(interp, op, st, fr)
+                cur = [out]
+            if isinstance(cur[0], TupleV):
+                yield new_param(st, meth, TupleV(cur[0].items), Dim.const(1)), st
+            else:
+                yield interp.unk("Parameter composition: result shape unknown"), st
+            return
+        yield interp.unk("Parameter." + meth), st
+        return
+    if cls == "CircuitBlock":
+        if meth == "from_layer" and args:
+            yield args[0], st
+            return
+        if meth == "from_layer_composition":
+            yield TupleV(tuple(args)), st
+            return
+    yield interp.unk("model." + name), st
+
+
 def py_method(interp: Any, recv: V, m: str, args: list[V], kwargs: dict[str, V], st: State, node: ast.AST) -> V:
     if isinstance(recv, IntV) and m == "item":
         return recv
@@ -1175,6 +1250,20 @@ def lib_op(interp: Any, name: str, args: list[V], kwargs: dict[str, V], st: Stat
                 r = r * x.d  # type: ignore[union-attr]
             yield IntV(st.norm(r)), st
             return
+    if name == "numpy.eye" and args:
+        d = getd(args[0], st)
+        yield (TensorV((d, d)) if d is not None else interp.unk("np.eye")), st
+        return
+    if name == "numpy.transpose" and args and isinstance(args[0], TensorV):
+        ax = kwargs.get("axes", args[1] if len(args) > 1 else None)
+        if ax is None:
+            yield TensorV(tuple(reversed(args[0].shape))), st
+        else:
+            yield tensor_op(interp, "permute", [args[0], ax], {}, st, fr, node), st
+        return
+    if name in ("numpy.reshape",) and len(args) >= 2 and isinstance(args[0], TensorV):
+        yield tensor_op(interp, "reshape", list(args), {}, st, fr, node), st
+        return
     if name in ("numpy.log", "numpy.exp", "numpy.sqrt", "math.log", "math.exp", "math.sqrt", "math.lgamma", "numpy.pi", "math.pi"):
         yield FloatV(None), st
         return
@@ -1265,6 +1354,15 @@ def py_builtin(interp: Any, name: str, args: list[V], kwargs: dict[str, V], st: 
             yield TupleV(tuple(sorted(items, key=lambda x: x.d.as_int())), "list"), st  # type: ignore[union-attr]
         else:
             yield unk("sorted"), st
+    elif name == "sum" and seq_items(a0) is not None and isinstance(kwargs.get("start", args[1] if len(args) > 1 else None), TupleV):
+        acc = kwargs.get("start", args[1] if len(args) > 1 else None)
+        okk = True
+        for x in seq_items(a0):  # type: ignore[union-attr]
+            if isinstance(x, TupleV):
+                acc = TupleV(acc.items + x.items, acc.kind)  # type: ignore[union-attr]
+            else:
+                okk = False
+        yield (acc if okk else unk("sum of tuples")), st
     elif name == "sum":
         items = seq_items(a0)
         if items is not None and all(isinstance(x, IntV) for x in items):
@@ -1388,7 +1486,10 @@ def isinstance_model(interp: Any, v: V, cls: V, st: State) -> BoolV:
                 res.append(None)
         elif isinstance(c, BuiltinV):
             n = c.name.rsplit(".", 1)[-1]
-            table = {"Tensor": TensorV, "int": IntV, "float": FloatV, "str": StrV, "bool": BoolV}
+            table = {"Tensor": TensorV, "ndarray": TensorV, "int": IntV, "float": FloatV, "str": StrV, "bool": BoolV}
+            if n in ("complex", "number") and isinstance(v, (IntV, FloatV, TensorV, BoolV, NoneV, TupleV, StrV, ObjV)):
+                res.append(False)
+                continue
             if n in table:
                 if n == "int" and isinstance(v, BoolV):
                     res.append(True)
